@@ -585,7 +585,7 @@ pub fn runs_for(prop: &str, tier: Tier) -> u64 {
         "C13" => (200_000, 4_000_000),
         "C16" => (1_000_000, 20_000_000),
         "C17" => (300_000, 6_000_000),
-        "C19" => (if batch { 48 * 48 + 49 * 49 * 3 + 1_200 } else { 600 }, if batch { 96 * 96 + 97 * 97 * 3 + 30_000 } else { 10_000 }),
+        "C19" => (if batch { 48 * 48 + 49 * 49 * 3 + 8_000 } else { 3_000 }, if batch { 96 * 96 + 97 * 97 * 3 + 200_000 } else { 60_000 }),
         "C20" => (200_000, 4_000_000),
         _ => (0, 0),
     };
@@ -966,7 +966,26 @@ pub fn run_index(prop: &str, idx: u64, vseed: u64, tier: Tier) -> RunResult {
                 ProgOpts { other_pct: 0, min_ops: 1, max_ops: 8, weights: [0, 0, 5, 3, 3, 1], oob: Oob::Full, rect_any: true }
             };
             program.extend(gen_draw_program(&mut rng, &cfg, orient, &po));
-            one(&mut r, ReplayCase::Display(mk_case(prop, seed, cfg, program)));
+            let mut case = mk_case(prop, seed, cfg, program);
+            if rng.chance(1, 5) {
+                // "after any sequence of successful set_orientation calls": a failed call in
+                // between (retried by the client) must not change what the successful ones do
+                let dry = exec_case(&case, &ExecOpt::default());
+                if dry.violation.is_none() && dry.skipped.is_none() && dry.harness_error.is_none() {
+                    let ranges: Vec<(u64, u64)> = dry
+                        .op_llops
+                        .iter()
+                        .zip(case.program.iter())
+                        .filter(|(_, op)| matches!(op, Op::SetOrientation { .. }))
+                        .map(|(r, _)| *r)
+                        .collect();
+                    let nf = 1 + rng.below(2);
+                    case.faults = gen_faults(&mut rng, case.config.transport, &ranges, nf);
+                    // the retrying client: an even case seed (see exec: odd seeds do not retry)
+                    case.seed &= !1;
+                }
+            }
+            one(&mut r, ReplayCase::Display(case));
         }
         "C11" => {
             let cfg = if idx < 10_752 {
@@ -1428,8 +1447,10 @@ fn run_c19(r: &mut RunResult, prop: &str, idx: u64, seed: u64, rng: &mut Rng, ti
                     break;
                 }
             }
-            let w = 1 + rng.below(48) as u16;
-            let h = 1 + rng.below(48) as u16;
+            // at least 32 x 32 most of the time: that is where the picture clauses apply
+            let dim = |rng: &mut Rng| if rng.chance(2, 3) { 32 + rng.below(17) as u16 } else { 1 + rng.below(48) as u16 };
+            let w = dim(rng);
+            let h = dim(rng);
             let cfg = base_config(rng, model, transport, w, h);
             let rc = ReplayCase::Display(mk_case(prop, seed, cfg, vec![Op::TestImage]));
             let key = class_key(&rc);
